@@ -331,7 +331,7 @@ string read_all(FILE* f) {
   for (;;) {
     buffers.emplace_back(read_size, 0);
     ssize_t bytes_read = ::fread(buffers.back().data(), 1, read_size, f);
-    if (bytes_read < 0) {
+    if ((bytes_read < read_size) && ferror(f)) {
       throw io_error(fileno(f));
     }
 
